@@ -808,7 +808,7 @@ func vcRunC08HupUnderDisconnect(t *vcTrial, rst bool, withOnRequest bool) {
 		ferr = conn.Writer().Flush()
 		atomic.StoreInt64(&retAt, vfNow())
 	}()
-	if !vcWaitPoint(mark, vpWaitFlushBeforeBlock, vcConnID(conn), 5*time.Second) {
+	if !vcWaitFlushParked(mark, vcConnID(conn), 5*time.Second) {
 		stopCanary()
 		peer.close(false)
 		select {
